@@ -157,8 +157,34 @@ BENIGN = [
 ]
 
 
-def variants_for(prop):
+def _seeded(prop):
+    """Confirmed seeded changes that break `prop` (must fire) and the behaviour-preserving refactorings (must stay silent)."""
+    import os, json
+    here = os.path.join(os.path.dirname(os.path.dirname(os.path.abspath(__file__))), "seeded")
     out = []
+    if not os.path.isdir(here):
+        return out
+    for d in sorted(os.listdir(here)):
+        pth = os.path.join(here, d, "patch.diff")
+        meta = os.path.join(here, d, "meta.json")
+        if os.path.isfile(pth) and os.path.isfile(meta):
+            try:
+                target = json.load(open(meta)).get("property")
+            except Exception:
+                continue
+            if target == prop:
+                out.append({"id": "seed:" + d, "edits": [("@patch", pth)], "expect": "fire", "rule": None})
+    ben = os.path.join(here, "benign")
+    if os.path.isdir(ben):
+        for d in sorted(os.listdir(ben)):
+            pth = os.path.join(ben, d, "patch.diff")
+            if os.path.isfile(pth):
+                out.append({"id": "refactoring:" + d, "edits": [("@patch", pth)], "expect": "silent"})
+    return out
+
+
+def variants_for(prop):
+    out = _seeded(prop)
     for (vid, props, rel, old, new, rule) in BREAK:
         if prop in props:
             out.append({"id": vid, "edits": [(rel, old, new)], "expect": "fire", "rule": rule if rule and rule != "R-" else None})
